@@ -16,7 +16,8 @@ LEVEL = "exploration"
 RULE = (
     "(a) every estimator class of the package (absent optional dependencies stubbed) x generated "
     "constructor assignments (each optional parameter kept at its default or perturbed "
-    "type-preservingly): get_params / set_params / clone / reconstruct / unknown-name / is_fitted "
+    "type-preservingly, strings from a table of documented alternatives, numbers also as numpy "
+    "scalars): get_params / set_params / clone / reconstruct / unknown-name / is_fitted "
     "contract; (b) generated histories of nested get/set operations on compositions up to depth 3 "
     "against an independent parameter-tree model; (c) every apply-type method of every runnable "
     "estimator before fit and on a clone of the fitted estimator, and the fit contract. "
